@@ -96,11 +96,12 @@ def cook_engine(schema, name, cfg=None, sdl=None, **extra):
 
 
 def execute_once(engine, text, op_name, variables, plan, choice, scheduler="random", busy_pct=30,
-                 point_mode="gate", rid=0, root_value=None, override=None, context=None, step_cap=200_000, type_override=None):
+                 point_mode="gate", rid=0, root_value=None, override=None, context=None, step_cap=200_000, type_override=None, deny=False):
     loop = SimLoop(choice, scheduler, busy_pct, point_mode, step_cap)
     rt = Runtime(rid, loop, plan)
     rt.override = override
     rt.type_override = type_override
+    rt.deny = deny
     rt.scramble_args = bool(plan is not None and getattr(plan, "no_variables", False))
     loop.default_rt = rt
     ctx = ReqCtx(rt) if context is None else context
